@@ -278,6 +278,8 @@ def _quiet():
 
 
 def check_history(events: list, ctx=None, threads: bool = False) -> str | None:
+    if any(e["k"] == "still-serving-after-close" for e in events):
+        return "standalone server still serving after server_close() returned: the close landed in the serve_forever() start-up window, its BusyResourceError (a RuntimeError) was swallowed, and the server was neither closed nor stopped"
     calls = {e["i"]: e for e in events if e["k"] == "call"}
     rets = {e["call"]: e for e in events if e["k"] == "return"}
     ups = {e["call"]: e for e in events if e["k"] == "up"}
@@ -487,6 +489,15 @@ def run_thread_history(h: dict, seed: int) -> dict:
                     except BaseException as exc:  # noqa: BLE001
                         ev("return", call=cid, result=f"raised:{type(exc).__name__}: {exc}")
                         time.sleep(0.05)
+                # server_close() returned: nothing may be serving any more
+                time.sleep(0.1)
+                try:
+                    still = server.is_serving()
+                except Exception:  # noqa: BLE001
+                    still = False
+                if still:
+                    ev("still-serving-after-close")
+                    server.shutdown()
                 for t in list(serve_threads):
                     t.join(20)
                 # a closed server must refuse to serve: run the last serve_forever in its own thread so that a server
@@ -591,7 +602,8 @@ def run_shard(params: dict, ctx) -> None:
             continue
         why = check_history(res["events"], ctx, threads=True)
         if why:
-            ctx.violation(f"history:standalone-{'udp' if h['udp'] else 'tcp'}", why, {"history": h, "events": res["events"][-16:], "threads": True})
+            key = "close-ignored-during-startup:standalone" if "still serving after server_close" in why else f"history:standalone-{'udp' if h['udp'] else 'tcp'}"
+            ctx.violation(key, why, {"history": h, "events": res["events"][-16:], "threads": True})
     # NetworkServerThread start/join cycle
     _server_thread_cycle(ctx, rng)
 
